@@ -1039,6 +1039,16 @@ def _check_locations(ctx, prog, W, R, exp_ci, imp_ci):
             ctx.holds(fi, s, "location %s=%r handled; id level %s" % (member, val, sorted(wl & rn) or sorted(rn)))
 
 
+def _module_string_tuple(fi, name):
+    """a module-level name bound once to a literal list/tuple of strings"""
+    ds = [st.value for st in fi.module.tree.body if isinstance(st, ast.Assign) and
+          any(isinstance(t, ast.Name) and t.id == name for t in st.targets)]
+    if len(ds) == 1 and isinstance(ds[0], (ast.List, ast.Tuple)) and ds[0].elts and \
+            all(isinstance(x, ast.Constant) and isinstance(x.value, str) for x in ds[0].elts):
+        return [x.value for x in ds[0].elts]
+    return None
+
+
 def _literal_columns(e):
     """column-name lists inside a data expression: x[['a','b']] -> ['a','b']"""
     for n in ast.walk(e):
@@ -1153,6 +1163,19 @@ def _check_widths(ctx, prog, W, R):
                 lc = _literal_columns(w["data"]) if w.get("data") is not None else None
                 if lc is not None:
                     wcols.append((lc, w))
+                elif w.get("data") is not None:
+                    # x[cols] with cols a local bound to literal lists only (possibly one per dimension case)
+                    for n_ in ast.walk(w["data"]):
+                        if isinstance(n_, ast.Subscript) and isinstance(n_.slice, ast.Name):
+                            ds = [st.value for st in walk_function(w["func"].node) if isinstance(st, ast.Assign) and
+                                  any(isinstance(t, ast.Name) and t.id == n_.slice.id for t in st.targets)]
+                            lits = [[x.value for x in d.elts] for d in ds if isinstance(d, (ast.List, ast.Tuple)) and d.elts and
+                                    all(isinstance(x, ast.Constant) and isinstance(x.value, str) for x in d.elts)]
+                            mc = _module_string_tuple(w["func"], n_.slice.id) if not ds else None
+                            if ds and len(lits) == len(ds):
+                                wcols.extend((l_, w) for l_ in lits)
+                            elif mc:
+                                wcols.append((mc, w))
             if not wcols:
                 continue
             rc, prefix_ok = _reader_columns(cols)
